@@ -165,6 +165,11 @@ class FloatShim(metaclass=_FloatMeta):
             from .symfloat import SymFloat
 
             return SymFloat.from_int(x)
+        if getattr(x, "_vf_decstr", False) and isinstance(x.value, (SymInt, int)):
+            # float("<canonical decimal text of n>") is the correctly rounded double of n
+            from .symfloat import SymFloat
+
+            return SymFloat.from_int(x.value)
         if getattr(x, "_vf_sym", False):
             c = getattr(x, "concrete", lambda: None)()
             if c is None:
